@@ -464,6 +464,9 @@ func (k *checker) CheckStateAt(n int, g *chaingen.Gen, viaHead bool) {
 func (k *checker) querySlots(g *chaingen.Gen) []felt.Felt {
 	touched := map[felt.Felt]bool{}
 	for _, b := range k.allBlocks() {
+		if b == nil { // a model recovered from a crash image has holes below the floor
+			continue
+		}
 		for _, slots := range b.SU.StateDiff.StorageDiffs {
 			for s := range slots {
 				touched[s] = true
